@@ -62,6 +62,17 @@ func measOf(class string) []byte {
 	return Meas(class)
 }
 
+// concRam: the specification writes 2^32 + 16 and 2^32 as -16 and -1 (TLC's integers are 32 bits wide)
+func concRam(code int) int {
+	switch code {
+	case -16:
+		return 1<<32 + 16
+	case -1:
+		return 1 << 32
+	}
+	return code
+}
+
 func ramOf(id string) uint32 {
 	switch id {
 	case "d0":
@@ -180,7 +191,7 @@ func runListing(m *Material, r listRow) (accepted bool, errText string, listed, 
 			v := Meas(id)
 			gs.Tdx = append(gs.Tdx, &epb.VMTdx_Measurement{RamGib: ramOf(id), EarlyAccept: id == "r16e", Mrtd: v})
 			listed = append(listed, v)
-			if r.Ram == 0 || int(ramOf(id)) == r.Ram {
+			if r.Ram == 0 || int(ramOf(id)) == concRam(r.Ram) {
 				listedFor = append(listedFor, v)
 			}
 		}
@@ -212,18 +223,18 @@ func runListing(m *Material, r listRow) (accepted bool, errText string, listed, 
 		}
 		switch r.Entry {
 		case "TdxPolicy":
-			pol, perr := gtb.TdxPolicy(ctx, e, &gtb.TdxPolicyOptions{RAMGiB: r.Ram, Base: base})
+			pol, perr := gtb.TdxPolicy(ctx, e, &gtb.TdxPolicyOptions{RAMGiB: concRam(r.Ram), Base: base})
 			if perr != nil {
 				err = perr
 				break
 			}
 			any := pol.GetTdQuoteBodyPolicy().GetAnyMrTd()
 			if len(any) == 0 {
-				policyBad = fmt.Sprintf("TdxPolicy for RAM %d returns an empty MRTD allow-list (every quote would pass)", r.Ram)
+				policyBad = fmt.Sprintf("TdxPolicy for RAM %d returns an empty MRTD allow-list (every quote would pass)", concRam(r.Ram))
 			}
 			for _, a := range any {
 				if !in(a, listedFor) {
-					policyBad = fmt.Sprintf("TdxPolicy for RAM %d puts a value into the allow-list that is not a 48-byte MRTD listed for that size", r.Ram)
+					policyBad = fmt.Sprintf("TdxPolicy for RAM %d puts a value into the allow-list that is not a 48-byte MRTD listed for that size", concRam(r.Ram))
 				}
 			}
 			vopts, verr := tdxvalidate.PolicyToOptions(pol)
@@ -233,10 +244,10 @@ func runListing(m *Material, r listRow) (accepted bool, errText string, listed, 
 			}
 			err = tdxvalidate.TdxQuote(q, vopts)
 		case "TdxValidate":
-			err = gtb.TdxValidate(ctx, qb, &gtb.TdxValidateOptions{Endorsement: e, RootsOfTrust: roots, Now: now, ExpectedRAMGiB: r.Ram, BasePolicy: base})
+			err = gtb.TdxValidate(ctx, qb, &gtb.TdxValidateOptions{Endorsement: e, RootsOfTrust: roots, Now: now, ExpectedRAMGiB: concRam(r.Ram), BasePolicy: base})
 		case "cli_tdx":
 			_, err = RunCLI(map[string][]byte{"endo.bin": eb, "quote.bin": qb, "root.pem": pemOf(m.RootCert)}, now, nil,
-				"tdx", "--ram_gib", fmt.Sprint(r.Ram), "validate", "quote.bin", "--endorsement", "endo.bin", "--root_cert", "root.pem")
+				"tdx", "--ram_gib", fmt.Sprint(concRam(r.Ram)), "validate", "quote.bin", "--endorsement", "endo.bin", "--root_cert", "root.pem")
 		}
 	}
 	if err != nil {
